@@ -57,3 +57,60 @@ const NETCODE_CONNECT_TOKEN_XNONCE_BYTES: usize = 24;
 
 const NETCODE_ADDITIONAL_DATA_SIZE: usize = 13 + 8 + 8;
 const NETCODE_SEND_RATE: Duration = Duration::from_millis(250);
+
+/// Verification hooks: re-exports and wrappers of crate-private items for the correspondence harness.
+#[cfg(feature = "verif")]
+pub mod verif {
+    use std::net::SocketAddr;
+
+    pub use crate::packet::{ChallengeToken, Packet};
+    pub use crate::replay_protection::ReplayProtection;
+
+    /// Fields of a private connect token: client id, timeout, addresses, client-to-server key,
+    /// server-to-client key, user data.
+    pub type PrivateFields = (u64, i32, Vec<Option<SocketAddr>>, [u8; 32], [u8; 32], [u8; 256]);
+
+    /// `PrivateConnectToken::encode` with explicit fields.
+    pub fn private_token_encode(
+        fields: &PrivateFields,
+        protocol_id: u64,
+        expire_timestamp: u64,
+        xnonce: &[u8; 24],
+        private_key: &[u8; 32],
+    ) -> Option<[u8; 1024]> {
+        let mut server_addresses = [None; 32];
+        for (i, a) in fields.2.iter().take(32).enumerate() {
+            server_addresses[i] = *a;
+        }
+        let token = crate::token::PrivateConnectToken {
+            client_id: fields.0,
+            timeout_seconds: fields.1,
+            server_addresses,
+            client_to_server_key: fields.3,
+            server_to_client_key: fields.4,
+            user_data: fields.5,
+        };
+        let mut buffer = [0u8; 1024];
+        token.encode(&mut buffer, protocol_id, expire_timestamp, xnonce, private_key).ok()?;
+        Some(buffer)
+    }
+
+    /// `PrivateConnectToken::decode`.
+    pub fn private_token_decode(
+        buffer: &[u8; 1024],
+        protocol_id: u64,
+        expire_timestamp: u64,
+        xnonce: &[u8; 24],
+        private_key: &[u8; 32],
+    ) -> Option<PrivateFields> {
+        let t = crate::token::PrivateConnectToken::decode(buffer, protocol_id, expire_timestamp, xnonce, private_key).ok()?;
+        Some((
+            t.client_id,
+            t.timeout_seconds,
+            t.server_addresses.to_vec(),
+            t.client_to_server_key,
+            t.server_to_client_key,
+            t.user_data,
+        ))
+    }
+}
